@@ -38,6 +38,7 @@ func (l *lockedBuf) Write(p []byte) (int, error) {
 	return l.b.Write(p)
 }
 func (l *lockedBuf) String() string { l.mu.Lock(); defer l.mu.Unlock(); return l.b.String() }
+func (l *lockedBuf) Reset()         { l.mu.Lock(); defer l.mu.Unlock(); l.b.Reset() }
 
 func runC10(r *Run) {
 	r.rule = "hostile client input: packet streams with every type value, length fields 0…2^32−1 (below 8, huge), truncated headers, inner length fields shorter/longer than the body, before and after authorization; every ordering of the legacy IN/OUT requests; Authorization strings of every class through the NTLM and Basic handlers; NTLM messages truncated / with field offsets and lengths outside the message / wrong type against the real verifier; socket-buffer tuning on TLS, TCP and other connections; then the same against the real binary in {TLS on/off} × {buffers unset/set} with a liveness probe; non-trivial = every input; distinct by input"
@@ -218,6 +219,118 @@ func runC10(r *Run) {
 			r.Violation("c10-handler-wedged", "after one client used one connection identifier on both transports and went away, a new tunnel of another client gets no handshake response within 3 s: the gateway no longer serves other clients", "requests with one Rdg-Connection-Id, in this order: "+strings.Join(ord, ", ")+" (WS = websocket upgrade, OUT/IN = legacy requests), each followed by a handshake packet where possible, then all connections closed\n")
 			break
 		}
+	}
+	// clients that are slow or silent in the middle of setting a tunnel up, and stay connected: everybody
+	// else must be served meanwhile (a probe tunnel on each transport while the slow client is still there)
+	legacyAlive := func() bool {
+		l, err := dialLegacy(addr, "{"+randHex(8)+"}", "")
+		if err != nil {
+			return false
+		}
+		defer l.close()
+		pr := readLegacy(l, 3*time.Second)
+		for try := 0; try < 2; try++ {
+			l.send(mkPacket(tHandshake, bodyHandshake(1, 0, 0, 0)))
+			deadline := time.Now().Add(1500 * time.Millisecond)
+			for time.Now().Before(deadline) {
+				if pk, _ := pr.snapshot(); len(pk) > 0 {
+					return pk[0][0] == 2
+				}
+				time.Sleep(2 * time.Millisecond)
+			}
+		}
+		return false
+	}
+	rawReq := func(method, id, extra string) net.Conn {
+		c, err := net.DialTimeout("tcp", addr, 2*time.Second)
+		if err != nil {
+			return nil
+		}
+		c.Write([]byte(method + " /remoteDesktopGateway/ HTTP/1.1\r\nHost: x\r\nRdg-Connection-Id: " + id + "\r\n" + extra + "\r\n"))
+		return c
+	}
+	for _, sc := range []struct {
+		name string
+		open func(id string) []net.Conn
+	}{
+		{"RDG_OUT_DATA, then RDG_IN_DATA with the same identifier, then nothing (not a byte of body)", func(id string) []net.Conn {
+			return []net.Conn{rawReq("RDG_OUT_DATA", id, ""), rawReq("RDG_IN_DATA", id, "Transfer-Encoding: chunked\r\n")}
+		}},
+		{"RDG_OUT_DATA only, nothing after it", func(id string) []net.Conn { return []net.Conn{rawReq("RDG_OUT_DATA", id, "")} }},
+		{"RDG_IN_DATA with half a chunk header, then nothing", func(id string) []net.Conn {
+			o := rawReq("RDG_OUT_DATA", id, "")
+			i := rawReq("RDG_IN_DATA", id, "Transfer-Encoding: chunked\r\n")
+			if i != nil {
+				time.Sleep(20 * time.Millisecond)
+				i.Write([]byte("1\r\n\x00\r\n1"))
+			}
+			return []net.Conn{o, i}
+		}},
+		{"a websocket upgrade that never sends a frame", func(id string) []net.Conn {
+			return []net.Conn{rawReq("RDG_OUT_DATA", id, "Connection: Upgrade\r\nUpgrade: websocket\r\nSec-WebSocket-Version: 13\r\nSec-WebSocket-Key: AAAAAAAAAAAAAAAAAAAAAA==\r\n")}
+		}},
+		{"half a request head", func(id string) []net.Conn {
+			c, err := net.DialTimeout("tcp", addr, 2*time.Second)
+			if err != nil {
+				return nil
+			}
+			c.Write([]byte("RDG_IN_DATA /remoteDesktopGateway/ HTTP/1.1\r\nHost: x\r\nRdg-Conn"))
+			return []net.Conn{c}
+		}},
+	} {
+		conns := sc.open("{" + randHex(6) + "}")
+		time.Sleep(60 * time.Millisecond)
+		okWS := tunnelAlive()
+		okLegacy := legacyAlive()
+		for _, c := range conns {
+			if c != nil {
+				c.Close()
+			}
+		}
+		r.Count("silent-client:" + sc.name)
+		if !okWS || !okLegacy {
+			r.Violation("c10-handler-wedged", "while one client sits silent in the middle of setting up a tunnel, a new tunnel of another client gets no handshake response within 3 s: the gateway no longer serves other clients",
+				fmt.Sprintf("the silent client: %s (its connections stay open)\nmeanwhile a fresh websocket tunnel is answered: %v; a fresh legacy tunnel is answered: %v\n", sc.name, okWS, okLegacy))
+			break
+		}
+	}
+	// request headers a client controls, with values that are unusual but legal on the wire: the tunnel is
+	// served or refused, and nothing panics
+	hostileVals := []string{"Caf\xe9-RDP/1.0", "\xff\xfe\x80", strings.Repeat("A", 6000), "", "   ", "a\tb", "%00%ff%zz", "\"quoted\" (comment) ;=,", "unknown", "\xe2\x82", "{00000000-0000-0000-0000-000000000000}", "../../etc/passwd", "0", "-1"}
+	hostileHdrs := []string{"User-Agent", "Rdg-User-Id", "X-Forwarded-For", "Accept-Language", "Origin", "Referer", "Sec-WebSocket-Protocol", "Cookie", "Authorization", "Rdg-Correlation-Id", "Content-Type", "Accept-Encoding"}
+	for hi, hn := range hostileHdrs {
+		for vi, v := range hostileVals {
+			if !r.Thorough() && (hi+vi)%3 != 0 && hn != "User-Agent" {
+				continue
+			}
+			extra := hn + ": " + v + "\r\n"
+			for _, kind := range []string{"ws", "legacy"} {
+				var cl gwClient
+				if kind == "ws" {
+					if w, err := dialWS(addr, "{"+randHex(8)+"}", extra); err == nil {
+						cl = w
+						w.send(mkPacket(tHandshake, bodyHandshake(1, 0, 0, 0)))
+						w.recv(400 * time.Millisecond)
+					}
+				} else if l, err := dialLegacy(addr, "{"+randHex(8)+"}", extra); err == nil {
+					cl = l
+					l.send(mkPacket(tHandshake, bodyHandshake(1, 0, 0, 0)))
+					time.Sleep(5 * time.Millisecond)
+				}
+				if cl != nil {
+					cl.close()
+				}
+				r.Count(fmt.Sprintf("header:%s:%d:%s", hn, vi, kind))
+			}
+			if s := errLog.String(); strings.Contains(s, "panic") {
+				r.Violation("c10-handler-panic", "the gateway's HTTP handler panicked on a client request (recovered per connection by net/http, but a runtime panic all the same)",
+					fmt.Sprintf("a tunnel opened (both transports) with the request header %s: %q\n%s", hn, v, tail(s, 2000)))
+				errLog.Reset()
+			}
+		}
+	}
+	if !tunnelAlive() {
+		r.Violation("c10-handler-wedged", "after tunnels with unusual request header values, a new tunnel gets no handshake response within 3 s", "header values tried: see the rule\n")
 	}
 	time.Sleep(50 * time.Millisecond)
 	if s := errLog.String(); strings.Contains(s, "panic") {
